@@ -59,6 +59,8 @@ use Reply::*;
 
 mod structs;
 pub(crate) use structs::*;
+#[cfg(feature = "verif")]
+mod verif;
 
 pub(crate) struct MainState {
     config: MainConfig,
@@ -438,6 +440,8 @@ impl MainState {
 
 // main process to handle commands from client.
 async fn user_state_process(main_state: Arc<MainState>, stream: DualTcpStream, addr: SocketAddr) {
+    #[cfg(feature = "verif")]
+    let _verif_guard = verif::HandlerGuard::new(addr);
     let line_stream = Framed::new(stream, IRCLinesCodec::new_with_max_length(2000));
     if let Some(mut conn_state) = main_state.register_conn_state(addr.ip(), line_stream) {
         #[cfg(feature = "dns_lookup")]
@@ -615,6 +619,8 @@ pub(crate) async fn run_server(
     let cloned_tls = config.tls.clone();
     let main_state = Arc::new(MainState::new_from_config(config));
     let main_state_to_return = main_state.clone();
+    #[cfg(feature = "verif")]
+    verif::spawn_ctl(main_state.clone());
     let handle = if cloned_tls.is_some() {
         #[cfg(feature = "tls_rustls")]
         {
